@@ -81,6 +81,9 @@ class Ctx:
         self.defined_ids = set()
         self.symbols = {}           # name -> z3 constant (for model extraction)
         self._assumed = set()
+        self._assumed_simpl = set() # ids of the simplified assumptions (syntactic fast path in decide)
+        self.witness_sampling = 0   # opt-in: number of pseudo-random rational points tried before z3 in check()
+        self._wit, self._wit_key = [], None
 
     # ---------------------------------------------------------------- symbols / assumptions
     def fresh_name(self, base):
@@ -99,6 +102,13 @@ class Ctx:
             return
         self._assumed.add(cond.get_id())
         self.assumptions.append(cond)
+        # simplified form, for the syntactic fast path of decide()
+        try:
+            sc = z3.simplify(cond)
+            self._keep.append(sc)
+            self._assumed_simpl.add(sc.get_id())
+        except z3.Z3Exception:
+            pass
         if note:
             self.assumption_notes.append(note)
 
@@ -145,11 +155,19 @@ class Ctx:
     def check(self, extra=(), timeout_ms=None):
         """(sat/unsat/unknown, solver) for assumptions + definedness + pc + extra."""
         from . import axioms
-        s = mk_solver(timeout_ms or self.feas_timeout_ms)
         cs = self.base_constraints() + list(extra)
+        axs = list(axioms.instances(cs, self))
+        if self.witness_sampling:
+            # a pseudo-random rational point that satisfies every constraint is a model; found without
+            # a solver search (generic-position constraints are satisfied by almost every point)
+            for ws, wm in self._witnesses():
+                if all(z3.is_true(wm.eval(c, model_completion=True)) for c in cs + axs):
+                    self.stats["witness_hits"] = self.stats.get("witness_hits", 0) + 1
+                    return z3.sat, ws
+        s = mk_solver(timeout_ms or self.feas_timeout_ms)
         for c in cs:
             s.add(c)
-        for a in axioms.instances(cs, self):
+        for a in axs:
             s.add(a)
         t0 = time.time()
         r = s.check()
@@ -158,6 +176,27 @@ class Ctx:
         if r == z3.unknown:
             self.stats["feas_unknown"] += 1
         return r, s
+
+    def _witnesses(self):
+        """[(solver, model)]: models of `symbol == pseudo-random dyadic rational` for every real symbol."""
+        import zlib
+        key = len(self.symbols)
+        if self._wit_key != key:
+            self._wit = []
+            for j in range(int(self.witness_sampling)):
+                s = z3.Solver()
+                for name, t in self.symbols.items():
+                    if not z3.is_real(t):
+                        continue
+                    h = zlib.crc32(("%s|%d" % (name, j)).encode())
+                    k = (h % 47) + 1
+                    if t.get_id() in self.known_neg or (t.get_id() not in self.known_pos and (h >> 9) & 1):
+                        k = -k
+                    s.add(t == z3.RatVal(k, 8))
+                if s.check() == z3.sat:
+                    self._wit.append((s, s.model()))
+            self._wit_key = key
+        return self._wit
 
     # ---------------------------------------------------------------- decisions
     def begin_path(self):
@@ -179,6 +218,18 @@ class Ctx:
             self.pc.append(cond if e.value else z3.Not(cond))
             return e.value
         # new decision point
+        # decided by an assumption that is syntactically this condition / its negation: no solver call;
+        # recorded in the trace (without alternative) so that re-executions stay aligned
+        fast = None
+        if cond.get_id() in self._assumed_simpl:
+            fast = True
+        elif self._assumed_simpl and z3.simplify(z3.Not(cond)).get_id() in self._assumed_simpl:
+            fast = False
+        if fast is not None:
+            self.trace.append(_Entry(fast, False, payload))
+            self.pos += 1
+            self.pc.append(cond if fast else z3.Not(cond))
+            return fast
         rt, _ = self.check([cond])
         rf, _ = self.check([z3.Not(cond)])
         ft = rt != z3.unsat
